@@ -72,6 +72,16 @@ def specs_for(tier, seed):
     for a, b in pairs:
         add(accounts=[acct(key_type=a)], meta={"family": "roll-over", "from": a, "to": b},
             steps=[("run", {}), ("call", set_account(key_type=b)), ("run", {})])
+    # an endpoint that is TWO key generations behind (it was unreachable when the first change was rolled out on the other endpoint):
+    # its keyChange has to be signed by the key that endpoint still has on record, not by the most recently superseded one
+    triples = [("ecdsa_p256", "rsa2048", "ecdsa_p384"), ("ed25519", "ecdsa_p256", "ecdsa_p521")]
+    if tier == "thorough":
+        triples += [("rsa2048", "ed448", "ecdsa_p256"), ("ecdsa_p384", "ecdsa_p256", "ed25519"), ("ecdsa_p521", "rsa4096", "rsa2048")]
+    for a, b, c in triples:
+        add(accounts=[acct(key_type=a)], endpoints={"A": {}, "B": {"script": [{"kind": "directory", "nth": 2, "fault": "drop_before", "repeat": 1}]}},
+            certs=[simple_cert("c1"), simple_cert("c2", endpoint="B")],
+            meta={"family": "roll-over on an endpoint two generations behind", "keys": [a, b, c]},
+            steps=[("run", {}), ("call", set_account(key_type=b)), ("run", {}), ("call", set_account(key_type=c)), ("run", {})])
     add(meta={"family": "contact update"},
         steps=[("run", {}), ("call", set_account(contacts=[{"mailto": "x@example.org"}, {"mailto": "y@example.org"}])), ("run", {})])
     add(meta={"family": "CA forgets the account, then renewal"}, steps=[("run", {}), ("call", forget()), ("run", {})])
@@ -185,7 +195,7 @@ def run(ctx):
            "model_fidelity": {"all_labels_clean": not fb and not fu, "bad": [(results[i]["meta"], l) for i, l, _ in fb[:5]]},
            "exhaustive": False,
            "rule": "all 7 account key types; every request position x {lost, nonce-less, badNonce, non-problem} answers followed by a second "
-                   "attempt, against CAs with and without nonces on GET; badNonce storms; roll-overs between key types; contact updates; "
+                   "attempt, against CAs with and without nonces on GET; badNonce storms; roll-overs between key types, also on an endpoint two key generations behind; contact updates; "
                    "forgotten accounts; EAB with each MAC; two endpoints; plus JWS volume through encode_kid/encode_jwk"}
     return {"coverage": cov, "assumptions": [
         "OpenSSL (through the vcrypto helper) is the signature/JWK oracle; EdDSA keys may name their algorithm 'EdDSA' (RFC 8037) or 'Ed25519'/'Ed448' (RFC 9864)",
